@@ -107,12 +107,12 @@ func baseDesc(v ssa.Value) string {
 	case *ssa.TypeAssert:
 		return "link-slot node"
 	case *ssa.Call:
-		if sc := x.Call.StaticCallee(); sc != nil {
+		if sc := ir.Callee(x.Call); sc != nil {
 			return "result of " + sc.Name()
 		}
 	case *ssa.Extract:
 		if cl, ok := x.Tuple.(*ssa.Call); ok {
-			if sc := cl.Call.StaticCallee(); sc != nil {
+			if sc := ir.Callee(cl.Call); sc != nil {
 				return "result of " + sc.Name()
 			}
 		}
